@@ -720,6 +720,7 @@ type summary struct {
 	Drift         int            `json:"drift"`
 	DriftRuns     int            `json:"drift_runs"`
 	Hung          int            `json:"hung"`
+	HungRetried   int            `json:"hung_first_attempt"`
 	Probes        int            `json:"atomicity_probes"`
 	ProbesEntered int            `json:"atomicity_probes_entered"`
 	Stress        int            `json:"stress_runs"`
@@ -728,7 +729,16 @@ type summary struct {
 }
 
 // replay runs one TLC schedule deterministically.
-func replay(tw *trace.Writer, id string, hist []step, sum *summary, probeBase int) {
+// replayTwice: a schedule that does not come to rest is run a second time on a fresh world before it is reported as a
+// deadlock - a starved process (the checks run many things at once) must not be taken for one.
+func replayTwice(tw *trace.Writer, id string, hist []step, sum *summary, probeBase int) {
+	if replay(tw, id, hist, sum, probeBase, false) {
+		sum.HungRetried++
+		replay(tw, id+"/again", hist, sum, probeBase, true)
+	}
+}
+
+func replay(tw *trace.Writer, id string, hist []step, sum *summary, probeBase int, final bool) (hung bool) {
 	tw.Boundary()
 	w := newWorld(true)
 	if len(hist) > 0 && hist[0].Op == "init" {
@@ -915,10 +925,12 @@ func replay(tw *trace.Writer, id string, hist []step, sum *summary, probeBase in
 			}
 		}
 		if !ok {
-			sum.Hung++
-			emit("hung", s, p, false)
+			if final {
+				sum.Hung++
+				emit("hung", s, p, false)
+			}
 			fmt.Fprintf(os.Stderr, "scenario %s: step %+v did not reach a gate or finish within 10s\n", id, s)
-			return
+			return true
 		}
 		fin := at == "done"
 		if fin {
@@ -946,8 +958,11 @@ func replay(tw *trace.Writer, id string, hist []step, sum *summary, probeBase in
 			close(old)
 			at, ok := wait(p)
 			if !ok {
-				sum.Hung++
-				return
+				if final {
+					sum.Hung++
+					emit("hung", step{P: p.id, Op: "finish", Seg: 9}, p, false)
+				}
+				return true
 			}
 			if at == "done" {
 				w.mu.Lock()
@@ -963,6 +978,7 @@ func replay(tw *trace.Writer, id string, hist []step, sum *summary, probeBase in
 	if drift > 0 {
 		sum.DriftRuns++
 	}
+	return false
 }
 
 // stress runs random operations truly concurrently and records the state at quiescence, then after stopping everything.
@@ -1062,10 +1078,10 @@ func main() {
 			if len(sum.Samples) < 2 {
 				sum.Samples = append(sum.Samples, json.RawMessage(raw))
 			}
-			replay(tw, sc.ID, sc.Hist, sum, -1)
+			replayTwice(tw, sc.ID, sc.Hist, sum, -1)
 			if idNumber(sc.ID)%8 == 0 {
 				for b := 0; b < 3; b++ {
-					replay(tw, fmt.Sprintf("%s/p%d", sc.ID, b), sc.Hist, sum, b)
+					replayTwice(tw, fmt.Sprintf("%s/p%d", sc.ID, b), sc.Hist, sum, b)
 				}
 			}
 			if sum.Hung >= 3 {
